@@ -86,5 +86,59 @@ func ruleSSATextSeparators(p *Prog, l *Ledger, tier string) {
 			}
 		}
 	}
+	if n == 0 {
+		// the text is accumulated in a strings.Builder / bytes.Buffer: constants written in the loop
+		// over the lines (but not in the loop over the runs) separate lines, constants written in the
+		// loop over the runs separate runs
+		depth := func(b *ssa.BasicBlock) int {
+			d := 0
+			for _, li := range loops {
+				if li.blocks[b] {
+					d++
+				}
+			}
+			return d
+		}
+		writes, runSep := 0, ""
+		for _, b := range wr.Blocks {
+			for _, ins := range b.Instrs {
+				c, ok := ins.(*ssa.Call)
+				if !ok {
+					continue
+				}
+				switch calleeName(&c.Call) {
+				case "(*strings.Builder).WriteString", "(*bytes.Buffer).WriteString":
+				default:
+					continue
+				}
+				writes++
+				sep, isC := constStr(c.Call.Args[1])
+				if !isC || sep == "" {
+					continue
+				}
+				switch depth(b) {
+				case 1:
+					n++
+					key := l.Key(rule, "newSSAEventFromItem", "line-separator", "")
+					if lineSeps[sep] {
+						l.Prove(rule, "newSSAEventFromItem", key, p.Pos(c.Pos()), fmt.Sprintf("lines are separated by %q, which the reader splits at", sep))
+					} else {
+						l.Fail(rule, "newSSAEventFromItem", key, p.Pos(c.Pos()), fmt.Sprintf("newSSAEventFromItem separates lines with %q, which is not among the strings the reader splits the text at (%v)", sep, lineSeps.sorted()))
+					}
+				case 2:
+					runSep = sep
+				}
+			}
+		}
+		if writes > 0 {
+			n++
+			key := l.Key(rule, "newSSAEventFromItem", "run-separator", "")
+			if runSep == "" || trimmed {
+				l.Prove(rule, "newSSAEventFromItem", key, "", fmt.Sprintf("runs are written one after the other with %q between them", runSep))
+			} else {
+				l.Fail(rule, "newSSAEventFromItem", key, "", fmt.Sprintf("newSSAEventFromItem writes %q between the runs of a line, but ssaEvent.item keeps the text before an override block untrimmed: the separator becomes part of the preceding run and one more is added on every read/write cycle", runSep))
+			}
+		}
+	}
 	l.Min(rule, n, 2)
 }
